@@ -339,3 +339,19 @@ Qed.
 Theorem async_durations_are_configured smol cfg_lifetime cfg_qt :
   async_call_duration smol cfg_lifetime cfg_qt = cfg_lifetime /\ async_attempt_duration smol cfg_lifetime cfg_qt = cfg_qt.
 Proof. destruct smol; split; reflexivity. Qed.
+
+(* ---------------------------------------------------------------- typed query vs history (C16) *)
+(* what query_rrset parses is exactly what the raw query received — the datagram cut to the
+   configured buffer size — whatever the reusable buffer held before: no byte of an earlier
+   response can appear in the result *)
+Theorem typed_input_ignores_history std old d bs :
+  lenN old = bs -> typed_parse_input std old d bs = recv_into bs d.
+Proof.
+  intro Ho. unfold typed_parse_input, recv_over.
+  assert (E1 : (if std then std_take_buf_len 0 bs else async_take_buf_len 0 bs) = bs) by (destruct std; reflexivity).
+  rewrite E1.
+  assert (E2 : (if std then std_rrset_parse_len else async_rrset_parse_len) (lenN (recv_into bs d)) bs = lenN (recv_into bs d))
+    by (destruct std; reflexivity).
+  rewrite E2. unfold lenN. rewrite Nat2N.id.
+  rewrite firstn_app, firstn_all, Nat.sub_diag, firstn_O, app_nil_r. reflexivity.
+Qed.
